@@ -225,7 +225,18 @@ def StageReference(dataReference,  # type: experiment.model.graph.DataReference
                 #Add / to dest to avoid commonprefix issue where /usr/var matches /usr/var2
                 #(due to charactwise matching performed)
                 target = os.path.join(os.path.realpath(dest), '')
-                for f in tar.getmembers():
+                members = tar.getmembers()
+                # VV: the links which the archive itself creates are not on the disk yet, so realpath() below
+                # cannot follow them. Refuse to extract anything *through* such a link (e.g. `b -> .` and `b/b/../../x`)
+                archive_links = set(os.path.normpath(f.name) for f in members if f.issym())
+
+                def through_archive_link(path):
+                    parts = path.split('/')
+                    return any(os.path.normpath('/'.join(parts[:i])) in archive_links for i in range(1, len(parts)))
+
+                for f in members:
+                    if through_archive_link(f.name):
+                        raise tarfile.ReadError('Archive contains files that would be extracted through its own links')
                     # VV: normalize the path so that `..` segments (or links already on the disk) cannot
                     # trick the check, also append / so that a member which is the root directory itself matches
                     newPath = os.path.join(os.path.realpath(os.path.join(target, f.name)), '')
@@ -236,6 +247,10 @@ def StageReference(dataReference,  # type: experiment.model.graph.DataReference
                         # VV: symbolic links are relative to the directory of the member, hard links to the root
                         # of the archive. Refuse links that point outside the destination.
                         linkRoot = os.path.dirname(newPath.rstrip(os.path.sep)) if f.issym() else target
+                        relTarget = os.path.join(os.path.dirname(f.name), f.linkname) if f.issym() else f.linkname
+                        if through_archive_link(os.path.join(relTarget, '')) or (
+                                f.islnk() and os.path.normpath(relTarget) in archive_links):
+                            raise tarfile.ReadError('Archive contains links that point through its own links')
                         linkPath = os.path.join(os.path.realpath(os.path.join(linkRoot, f.linkname)), '')
                         if os.path.commonprefix([target, linkPath]) != target:
                             raise tarfile.ReadError('Archive contains links that point outside of destination')
